@@ -1008,7 +1008,7 @@ func denotations(x string) map[string]any {
 // first operation (the one that is called) must keep formatting and parsing its value by the path item's declaration.
 func withSibling(w wireOp, k int) aspec.PathItem {
 	pi := aspec.PathItem{Template: w.tmpl, Ops: []aspec.Op{w.op}}
-	if k%6 != 2 {
+	if k%3 != 2 {
 		return pi
 	}
 	var pathParams, rest []aspec.Param
